@@ -233,7 +233,10 @@ def de (x : Ext) (σ : Space) : Nat → Id → Json → Except E Val
                 match variants[i]? with
                 | some ⟨_, _, .simple⟩ => .ok (.variant i .unit)
                 | _ => .error .reject)
-           | .obj [(k, body)] =>
+           | .obj ((k, body) :: rest) =>
+             -- exactly one member; (the driver never delivers duplicate keys, so "every further
+             -- member repeats the key" is "no further member")
+             if !rest.all (fun kv => kv.1 == k) then .error .reject else
              (match variants.findIdx? (fun v => v.wire == k) with
               | none => .error .reject
               | some i =>
@@ -281,7 +284,8 @@ def de (x : Ext) (σ : Space) : Nat → Id → Json → Except E Val
                    | some ⟨_, _, .simple⟩, some .null => .ok (.variant i .unit)
                    | some ⟨_, _, .simple⟩, some _ => .error .reject
                    | some v, some body =>
-                     (match deVariantBody x σ f v.details deny true body with
+                     -- adjacently tagged content is read by the untagged variant code: no sequence form
+                     (match deVariantBody x σ f v.details deny false body with
                       | .ok p => .ok (.variant i p) | .error e => .error e)
                    | some ⟨_, _, .item t'⟩, none =>
                      if optionLikeT σ t' then .ok (.variant i .none) else .error .reject
